@@ -19,9 +19,9 @@ THOROUGH_S = 420
 BATCH = 8
 RULE = ('one evaluation = one seeded simulated run: either 2-3 clients adding dyadic rationals to / reading / popping one Averager '
         '(shared object, own objects, processes; Cache or FanoutCache) interleaved by the seeded scheduler and checked for '
-        'linearizability against (total, count); or a throttled function (count in {1,2,5} per seconds in {0.5,1,3}) called by 1-3 '
+        'linearizability against (total, count); or a throttled function (count in {0.25,0.5,1,2,5} per seconds in {0.5,1,3}) called by 1-3 '
         'tasks (threads of one process, or separate simulated processes that each open the directory and decorate their own copy of the function; str/bytes hash differently per process) with seeded arrival patterns (bursts, idle gaps, steady overload) on the virtual clock, whose recorded start times must '
-        'satisfy starts(window) <= count + rate*length for every window and every call must start, including the calls in which the function raises (the admission is spent, the exception comes out); non-trivial = a context switch '
+        'satisfy starts(window) <= max(count,1) + rate*length for every window and every call must start, including the calls in which the function raises (the admission is spent, the exception comes out); non-trivial = a context switch '
         '(Averager) / at least one call was delayed (throttle); distinct = SHA-256 of the seam event log')
 ASSUMPTIONS = ['throttle is given time_func/sleep_func bound to the virtual clock (the seam the recipe offers); a virtual sleep lasts at least the requested time plus >= 1 microsecond',
                'Averager values are dyadic rationals so sums are exact in any order']
@@ -70,7 +70,7 @@ def gen_case(seed, tier):
             else:
                 gaps.append(rng.choice((0.0, 0.0, 0.1, 1.0, 4.0)))
         arrivals.append(gaps)
-    cfg = {'kind': 'throttle', 'count': rng.choice((1, 2, 5)), 'seconds': rng.choice((0.5, 1, 3)),
+    cfg = {'kind': 'throttle', 'count': rng.choice((1, 2, 5, 1, 2, 5, 0.5, 0.25)), 'seconds': rng.choice((0.5, 1, 3)),
            'target': rng.choice(('cache', 'cache', 'fanout')), 'shards': rng.choice((1, 2)),
            'arrivals': arrivals, 'work': rng.choice((0.0, 0.0, 0.01, 0.2)),
            'sched': rng.choice(({'kind': 'uniform'}, {'kind': 'sticky', 'p': 0.7})),
@@ -252,7 +252,7 @@ def run_throttle(case):
         for i in range(len(ts)):
             for j in range(i, len(ts)):
                 n = j - i + 1
-                allowed = count + rate * (ts[j] - ts[i]) + eps
+                allowed = max(count, 1) + rate * (ts[j] - ts[i]) + eps      # a burst size below one still lets single calls through
                 if n > allowed and (worst is None or n - allowed > worst[0]):
                     worst = (n - allowed, i, j)
         if worst is not None:
